@@ -20,6 +20,7 @@ import (
 type concEnv struct {
 	W             *world.World
 	A, B          *world.Client
+	D             *world.Client   // second publisher (only in setups that create one, e.g. C33's tam variants)
 	Clients       []*world.Client // every client in creation order
 	Closed        bool            // Server.Close was one of the actions
 	CloseReturned bool
@@ -67,6 +68,17 @@ var concActions = map[string]concAction{
 		e.B.SendRaw(append(ref.Encode(pub("x", "s1", 0, 0), 4, ref.EncOpts{}), ref.Encode(pub("x", strings.Repeat("L", 200), 0, 0), 4, ref.EncOpts{})...))
 	},
 	"pubB0": func(e *concEnv) { e.B.Send(pub("x", "m2", 0, 0)) },
+	// publishes on further topics and from a second publisher d (setups with e.D: a is
+	// additionally subscribed to y and z)
+	"pubBy0": func(e *concEnv) { e.B.Send(pub("y", "by", 0, 0)) },
+	"pubBy":  func(e *concEnv) { e.B.Send(pub("y", "by", 1, 2)) },
+	"pubDx0": func(e *concEnv) { e.D.Send(pub("x", "dx", 0, 0)) },
+	"pubDy0": func(e *concEnv) { e.D.Send(pub("y", "dy", 0, 0)) },
+	"pubDz0": func(e *concEnv) { e.D.Send(pub("z", "dz", 0, 0)) },
+	"pubDz":  func(e *concEnv) { e.D.Send(pub("z", "dz", 1, 3)) },
+	"inlz": func(e *concEnv) { // Server.Publish caller (needs Options.InlineClient)
+		e.W.Spawn("inline-publish", func() { _ = e.W.S.Publish("z", []byte("iz"), false, 0) })
+	},
 	"pubA2": func(e *concEnv) { e.A.Send(pub("x", "n1", 2, 9)) },
 	"ackA":  func(e *concEnv) { e.A.Send(ref.Packet{Type: ref.PUBACK, PacketID: 1}) },
 	"subA":  func(e *concEnv) { e.A.Send(sub(3, "y/#", 1)) },
@@ -84,6 +96,7 @@ var concActions = map[string]concAction{
 	"takeA":  func(e *concEnv) { e.dial(v5connect("a", false, 2, 60)) },
 	"takeAc": func(e *concEnv) { e.dial(v5connect("a", true, 2, 60)) },
 	"connC":  func(e *concEnv) { e.dial(world.ConnectPacket("c", 4, true)) },
+	"connD":  func(e *concEnv) { e.dial(v5connect("d", false, 0, 60)) },
 	"hk": func(e *concEnv) {
 		e.W.X.Advance(2000)
 		now := e.W.Now()
@@ -155,6 +168,56 @@ func (e *concEnv) obs() string {
 		fmt.Fprintf(&b, "closeReturned=%v", e.CloseReturned)
 	}
 	return b.String()
+}
+
+// shutdownViolations judges a run in which Server.Close was one of the actions, at
+// quiescence (no thread is enabled and nothing the peers sent is unread). Close must not be
+// left waiting on the broker's own synchronisation (Listeners.ClientsWg, a channel) for a
+// handler that nothing inside the broker will ever end: a client that holds a success
+// CONNACK, whose connection is open, has no read deadline (keepalive 0) and whose peer is
+// idle can only be ended by the shutdown itself - if Close waits for it instead of
+// disconnecting it, the shutdown path is blocked forever. Lock waits are reported by
+// runtimeViolations (deadlock:*) and are not repeated here. A handler that is still waiting
+// for its peer's CONNECT is not judged (must-not only for established clients).
+func (e *concEnv) shutdownViolations() []explore.Violation {
+	if !e.Closed || e.CloseReturned {
+		return nil
+	}
+	if d, _ := e.W.X.Deadlocked(); d {
+		return nil
+	}
+	kind, what, found := zzvrt.BlockNone, "", false
+	for _, t := range e.W.X.Threads() {
+		if strings.HasPrefix(t.Name, "close#") && !t.Done {
+			kind, what, found = t.Blocked, t.What, true
+		}
+	}
+	if !found || (kind != zzvrt.BlockWG && kind != zzvrt.BlockChan) {
+		return nil
+	}
+	var out []explore.Violation
+	for _, c := range e.Clients {
+		c.Poll()
+		established := len(c.Recv) > 0 && c.Recv[0].Type == ref.CONNACK && c.Recv[0].ReasonCode == 0
+		if established && !c.Closed() && c.C.Pending() == 0 && !c.C.PeerClosed() && c.C.Deadline().IsZero() {
+			out = append(out, explore.Violation{Key: "close-blocked:established-client-never-disconnected",
+				Msg: fmt.Sprintf("Server.Close is blocked forever in %s (%s): client %s (conn%d) holds a success CONNACK, its connection is open and idle with no keepalive deadline, nobody disconnects it and Close waits for its handler; %s", what, kind, c.ID, c.C.ID, e.obs())})
+			break
+		}
+	}
+	if len(out) == 0 {
+		waitsForConnect := false
+		for _, c := range e.Clients {
+			if len(c.Recv) == 0 && !c.Closed() {
+				waitsForConnect = true // a handler may still be reading this peer's CONNECT: not judged
+			}
+		}
+		if !waitsForConnect {
+			out = append(out, explore.Violation{Key: "close-blocked:other:" + kind.String(),
+				Msg: fmt.Sprintf("Server.Close did not return at quiescence (blocked in %s) although no connection is left that it could be waiting for; threads alive: %v; %s", what, e.W.X.Alive(), e.obs())})
+		}
+	}
+	return out
 }
 
 // runtimeViolations turns scheduler-level findings into violations with narrow keys.
